@@ -61,6 +61,15 @@ func (c *X2Config) opts() WorldOpts {
 		}
 		o.OutStore = os
 		o.LogDirPath = dir
+		if c.Initial != nil {
+			// the jobs of the earlier run left their logs behind
+			for _, pj := range c.Initial.Jobs {
+				if wr, err := os.Writer(pj.ID.String(), "a", "stdout"); err == nil {
+					fmt.Fprintf(wr, "output of the earlier run of job %s\n", pj.ID)
+					wr.Close()
+				}
+			}
+		}
 	}
 	return o
 }
@@ -363,6 +372,18 @@ func (c *X2Config) check(w *World, pre, post *Dump, ev XEvent, preLen int, liste
 	}
 	if c.Props["C16"] {
 		vs = append(vs, monC16(w, f)...)
+	}
+	if c.Props["C15ret"] && ev.Kind == "Save" && pre != nil && post != nil {
+		for i := range pre.Jobs {
+			j := &pre.Jobs[i]
+			if _, defined := pre.Defs.Pipelines[j.Pipeline]; !defined {
+				continue
+			}
+			if !j.Terminal() && post.Job(j.Idx) == nil {
+				vs = append(vs, Violation{Property: "C15", Rule: "reported-until-retention", Norm: "unfinished-job-no-longer-reported",
+					Msg: fmt.Sprintf("job %d (%s) was accepted and is neither finished nor expired, but after a save it is no longer reported: %s", j.Idx, jobStr(j), post.Short())})
+			}
+		}
 	}
 	if c.Props["C12"] {
 		var after map[string]string
